@@ -255,6 +255,12 @@ class OutFile:
     time_units: str
 
 
+def _abs_time(ref, tv: float):
+    if not np.isfinite(tv) or abs(tv) > 1e15:
+        return np.datetime64("NaT", "s")
+    return ref + np.timedelta64(int(round(tv)), "s")
+
+
 def read_outfile(path: Path) -> OutFile:
     """Read an output file exactly as the format documentation prescribes."""
     with Dataset(path) as nc:
@@ -276,7 +282,7 @@ def read_outfile(path: Path) -> OutFile:
                 start = int(np.sum(counts[:n]))
                 cnt = int(counts[n])
                 vars_ = {k: d[start:start + cnt] for k, d in data.items()}
-                recs.append(Rec(str(path), n, float(times[n]), ref + np.timedelta64(int(round(times[n])), "s"),
+                recs.append(Rec(str(path), n, float(times[n]), _abs_time(ref, times[n]),
                                 vars_.get("pid", np.array([], int)).astype(int), vars_))
             ninst = len(nc.dimensions["particle_instance"])
         else:
@@ -290,7 +296,7 @@ def read_outfile(path: Path) -> OutFile:
                 else:
                     present = np.nonzero(~_isfill(raw[key], fill[key]))[0]
                 vars_ = {k: r[present] for k, r in raw.items()}
-                recs.append(Rec(str(path), n, float(times[n]), ref + np.timedelta64(int(round(times[n])), "s"),
+                recs.append(Rec(str(path), n, float(times[n]), _abs_time(ref, times[n]),
                                 present.astype(int), vars_, raw={k: (r, fill[k]) for k, r in raw.items()}))
             ninst = 0
         return OutFile(Path(path), "dense" if dense else "sparse", recs, pvars, punits,
